@@ -1,6 +1,7 @@
 package main
 
 import (
+	"errors"
 	"context"
 	"fmt"
 	"strings"
@@ -11,8 +12,9 @@ import (
 	"github.com/cloudwego/hertz/pkg/route"
 )
 
-// handler programs over N (Next), A (Abort), S (AbortWithStatus), M (mark numbered by position)
-var c12Behaviours = []string{"M", "MNM", "MAM", "MNMAM", "MAMNM", "MNMNM", "MSM"}
+// handler programs over N (Next), the Abort family — A (Abort), S (AbortWithStatus), G (AbortWithMsg),
+// J (AbortWithStatusJSON), R (AbortWithError) — and M (mark numbered by position)
+var c12Behaviours = []string{"M", "MNM", "MAM", "MNMAM", "MAMNM", "MNMNM", "MSM", "MGM", "MJM", "MRM", "MGMNM"}
 
 func c12Handler(i int, prog string, log *[]string) app.HandlerFunc {
 	return func(c context.Context, ctx *app.RequestContext) {
@@ -27,6 +29,15 @@ func c12Handler(i int, prog string, log *[]string) app.HandlerFunc {
 			case 'S':
 				*log = append(*log, "A")
 				ctx.AbortWithStatus(403)
+			case 'G':
+				*log = append(*log, "A")
+				ctx.AbortWithMsg("denied", 403)
+			case 'J':
+				*log = append(*log, "A")
+				ctx.AbortWithStatusJSON(403, map[string]string{"e": "denied"})
+			case 'R':
+				*log = append(*log, "A")
+				ctx.AbortWithError(403, errors.New("denied")) //nolint:errcheck
 			default:
 				*log = append(*log, fmt.Sprintf("M%d.%d", i, pos))
 			}
@@ -95,7 +106,7 @@ func init() {
 			impl := strings.Join(log, " ")
 			margs := make([][]byte, len(progs))
 			for i, p := range progs {
-				margs[i] = []byte(strings.ReplaceAll(p, "S", "A"))
+				margs[i] = []byte(strings.NewReplacer("S", "A", "G", "A", "J", "A", "R", "A").Replace(p))
 			}
 			mod := t.M.Call("run_chain", margs...)
 			var fs []Finding
@@ -123,7 +134,7 @@ func init() {
 			}
 			rec(nil)
 			// longer chains and denser programs, random
-			alpha := "NAMS"
+			alpha := "NAMSGJR"
 			for i := 0; i < t.Scale(3000, 60000); i++ {
 				n := 1 + t.R.Intn(12)
 				ps := make([]string, n)
